@@ -175,6 +175,7 @@ type Exec struct {
 	inInit    int
 	prov      map[*term.T]provRec
 	nFresh    int
+	symCaps   int
 	// solver-stack reuse across consecutive paths of one worker (DFS alignment)
 	prevDecs  []int32
 	prevSigs  []uint64
@@ -1420,7 +1421,21 @@ func (ex *Exec) makeSlice(fr *frame, in *ssa.MakeSlice) Value {
 		}
 	}
 	l := int64(ex.concretize(ln, "make len"))
-	c := int64(ex.concretize(cp, "make cap"))
+	var c int64
+	if cp.Op != term.OConst {
+		// symbolic capacity hint: the run-time check (len <= cap <= max) is decided, then the
+		// slice is allocated with cap == len (capacity is only observable through cap() and
+		// append aliasing; stated approximation)
+		tb := ex.tb
+		okc := tb.BAnd(tb.Cmp(term.OSle, tb.Const(64, uint64(l)), cp), tb.Cmp(term.OSle, cp, tb.Const(64, 1<<40)))
+		if !ex.branch(okc) {
+			panic(ex.goPanicStr("makeslice: cap out of range"))
+		}
+		ex.symCaps++
+		c = l
+	} else {
+		c = int64(cp.V)
+	}
 	if l < 0 || l > c || c > 1<<28 {
 		if l < 0 || c < 0 || l > c {
 			panic(ex.goPanicStr("makeslice: len out of range"))
